@@ -59,6 +59,8 @@ def load_contracts(src):
         import contracts.alternatives as _al
         _al.register_alternatives(src)
         _al.register_select_build(src)
+        import contracts.lazyarray as _lza
+        _lza.register_lazyarray(src)
         import contracts.foldlemmas  # noqa  (lemmas over the Array folds; needs the fold definitions registered above)
     import contracts.classes as cc
     gens = cc.generic_contracts(src)
